@@ -54,7 +54,8 @@ func (ps *PubSub) Subscribe(_ context.Context, conn *net.Conn, channels []string
 		// If it does, subscribe the connection to the channel
 		// If it does not, create the channel and subscribe to it
 		channelIdx := slices.IndexFunc(ps.channels, func(channel *Channel) bool {
-			return channel.name == channels[i]
+			// A pattern and a plain channel may be spelled the same: they are different channels.
+			return channel.name == channels[i] && (channel.pattern != nil) == withPattern
 		})
 
 		if channelIdx == -1 {
